@@ -227,6 +227,33 @@ def run_libseed(case):
     a = case['args']
 
     def call():
+        if fn in ('RandomKCNF-saturated', 'RandomKXOR-saturated'):
+            # almost every clause / parity that exists is requested (all but a[2]), with and without planted assignments:
+            # random probing rarely finds a new one, so whatever the generator falls back on is exercised
+            from math import comb
+            k, n, deficit = a[0], a[1], a[2]
+            planted = [[v if (v * 7 + j) % 3 else -v for v in range(1, n + 1)] for j in range(a[3])] if len(a) > 3 else []
+            if fn == 'RandomKCNF-saturated':
+                import itertools as _it
+                mx = 0       # exact number of k-clauses no planted assignment falsifies
+                for X in _it.combinations(range(1, n + 1), k):
+                    mx += 2 ** k - len(set(tuple(p[v - 1] > 0 for v in X) for p in planted))
+                m = max(0, mx - deficit)
+                try:
+                    return _formula_sig(cnfgen.RandomKCNF(k, n, m, seed=seed, planted_assignments=planted))
+                except ValueError:
+                    return ('refused', k, n, m)
+            # exact number of parities every planted assignment satisfies (brute force; n <= 12, k <= 3)
+            import itertools as _it
+            mx = 0
+            for X in _it.combinations(range(1, n + 1), k):
+                vals = set(sum(1 for v in X if p[v - 1] > 0) % 2 for p in planted)
+                mx += 2 if not planted else (1 if len(vals) == 1 else 0)
+            m = max(0, mx - deficit)
+            try:
+                return _formula_sig(cnfgen.RandomKXOR(k, n, m, seed=seed, planted_assignments=planted))
+            except ValueError:
+                return ('refused', k, n, m)
         if fn == 'RandomKCNF':
             return _formula_sig(cnfgen.RandomKCNF(a[0], a[1], a[2], seed=seed))
         if fn == 'RandomKXOR':
@@ -275,7 +302,7 @@ def run_libseed(case):
 
 
 LIBFNS = ['RandomKCNF', 'RandomKXOR', 'bipartite_random_left_regular', 'bipartite_random_m_edges', 'bipartite_random',
-          'bipartite_random_regular', 'add_random_missing_edges', 'split_random_edges', 'add_missing_dense', 'add_missing_dense_bipartite']
+          'bipartite_random_regular', 'add_random_missing_edges', 'split_random_edges', 'add_missing_dense', 'add_missing_dense_bipartite', 'RandomKCNF-saturated', 'RandomKXOR-saturated']
 
 
 @st.composite
@@ -283,6 +310,8 @@ def strat_libseed(draw):
     fn = draw(st.sampled_from(LIBFNS))
     if fn in ('RandomKCNF', 'RandomKXOR'):
         args = [draw(st.integers(1, 3)), draw(st.integers(4, 9)), draw(st.integers(0, 6))]
+    elif fn.endswith('-saturated'):
+        args = [draw(st.integers(1, 3)), draw(st.integers(4, 9)), draw(st.integers(0, 4)), draw(st.integers(0, 3))]
     elif fn.startswith('add_missing_dense'):
         args = [draw(st.integers(6, 30 if fn == 'add_missing_dense' else 15)), draw(st.integers(1, 9)), draw(st.integers(1, 5))]
     else:
@@ -358,6 +387,8 @@ def enum_libseed(tier):
     for fn in LIBFNS:
         if fn in ('RandomKCNF', 'RandomKXOR'):
             argl = [[3, 6, 4], [2, 5, 5], [3, 9, 6], [1, 4, 2]]
+        elif fn.endswith('-saturated'):
+            argl = [[2, 8, 1, 0], [2, 8, 3, 1], [3, 7, 2, 0], [2, 10, 3, 3], [3, 8, 1, 2], [1, 9, 0, 0], [2, 12, 2, 2]]
         elif fn.startswith('add_missing_dense'):
             argl = [[30, 8, 3], [20, 5, 2], [12, 9, 4], [15, 3, 3]] if fn == 'add_missing_dense' else [[15, 8, 3], [10, 5, 2], [8, 9, 4]]
         else:
@@ -365,6 +396,45 @@ def enum_libseed(tier):
         for args in argl:
             for i, sd in enumerate([0, 1, 'abc', 2 ** 70, 12345, -3]):
                 yield {'fn': fn, 'args': args, 'seed': sd, 'junk1': 3 + i, 'junk2': 150 + i}
+
+
+def run_heavy(case):
+    """commands that run for seconds: the output may not depend on how fast the machine happens to be"""
+    import threading
+    outs = []
+    for rep in range(2):
+        stop = []
+        burner = None
+        if rep == 1:
+            # the second run shares the processor with a busy thread, so everything takes noticeably longer
+            def burn():
+                x = 0
+                while not stop:
+                    x += 1
+            burner = threading.Thread(target=burn, daemon=True)
+            burner.start()
+        try:
+            random.seed(rep)
+            r = cli.run_main(case['tool'], case['args'], None)
+        finally:
+            stop.append(1)
+            if burner is not None:
+                burner.join(10)
+        outs.append((r.code, r.out, type(r.exc).__name__ if r.exc is not None else r.err))
+    if outs[0] != outs[1]:
+        da, db = outs[0][1].splitlines(), outs[1][1].splitlines()
+        diff = next(((i, x, y) for i, (x, y) in enumerate(zip(da, db)) if x != y), (outs[0][0], outs[1][0], len(da), len(db)))
+        raise Violation("{} {}: two runs of a long computation (the second one on a busy processor) print different output; first difference: {}".format(
+            case['tool'], ' '.join(case['args']), diff))
+    return Outcome(labels=['heavy', case['args'][3], 'exit{}'.format(outs[0][0])], nontrivial=outs[0][0] == 0)
+
+
+def enum_heavy(tier):
+    for args in (['-q', '--seed', '7', 'randkcnf', '4', '20', '77420'], ['-q', '--seed', '3', 'randkxor', '3', '40', '19700'],
+                 ['-q', '--seed', '5', 'randkcnf', '--plant', '3', '30', '28300'], ['-q', '--seed', '2', 'kcolor', '3', 'gnp', '300', '0.5', 'addedges', '2000'],
+                 ['-q', '--seed', '9', 'php', 'glrm', '60', '60', '3500', 'addedges', '90']):
+        for tool in ('cnfgen', 'pbgen'):
+            yield {'tool': tool, 'args': args}
 
 
 SUBCHECKS = [
@@ -378,6 +448,9 @@ SUBCHECKS = [
     SubCheck('history', run_history, strategy=strat_history, quick=500, thorough=20000,
              rule="in one process: a command line V, then a command line P that shares a graph construction / family size / formula with V but adds graph modifiers or other transformation options, then V again; a third of the cases take V and P freely from the whole command line grammar (P equal to V now and then); oracle: both runs of V print the same (exit status, stdout, stderr) - the output is a function of the command line and seed only, not of what ran before; non-trivial: exit 0",
              required_labels=['construction', 'numeric', 'shuffle', 'any']),
+    SubCheck('heavy', run_heavy, enumerate_cases=enum_heavy, enum_tiers=('thorough',), quick=0, thorough=0, opt_pass=False,
+             rule="thorough tier only: ten command lines that compute for seconds (almost saturated random k-CNF / k-XOR with 20000..77000 rows, dense random graphs with thousands of added edges), each run twice in one process, the second time next to a thread that keeps the processor busy; oracle: identical exit status and output - the result may depend on the seed, never on how long something took; non-trivial: exit 0",
+             required_labels=[]),
     SubCheck('libseed', run_libseed, strategy=strat_libseed, enumerate_cases=enum_libseed, quick=300, thorough=20000,
              rule="every library generator with a seed argument called twice with the same seed (0, strings, big integers) from different states of the global generator; oracle: equal formulas / graphs",
              required_labels=LIBFNS + ['seed=0']),
